@@ -98,6 +98,14 @@ type probeState struct {
 
 var probeExcClass = value.NewClassModel("探针异常").DefineProperty("内容", value.NewString(""))
 
+// probeBoxClass stands for a class an embedding application exports through a library: its
+// default property values are package-level objects shared by every execution.
+var probeBoxClass = value.NewClassModel("探针箱").
+	DefineProperty("文", value.NewString("1.5*^3")).
+	DefineProperty("数", value.NewNumber(7)).
+	DefineProperty("表", value.NewArray([]r.Element{value.NewNumber(1), value.NewString("2*10^4")})).
+	DefineProperty("典", value.NewHashMap([]value.KVPair{{Key: "k", Value: value.NewString("3*^2")}, {Key: "n", Value: value.NewNumber(5)}}))
+
 func probeLib() *r.Library {
 	lib := r.NewLibrary("@探针")
 	lib.RegisterFunction("探针", value.NewFunction(func(recv r.Element, params []r.Element) (r.Element, error) {
@@ -129,6 +137,7 @@ func probeLib() *r.Library {
 		return value.NewNumber(float64(ps.count)), nil
 	}))
 	lib.RegisterClass("探针异常", probeExcClass)
+	lib.RegisterClass("探针箱", probeBoxClass)
 	return lib
 }
 
